@@ -434,4 +434,6 @@ RULES = [
     ("C03.R5", "phase set names are 0-based start + 1", r5),
     ("C03.R6", "no phase set survives from the input (old phase removed everywhere)", r6),
 ]
-FLOORS = {"C03.R1": 8, "C03.R2": 10, "C03.R3": 6, "C03.R4": 8, "C03.R5": 6, "C03.R6": 8}
+# instance floors: about 60% of the instances confirmed by hand on the reference tree -- a rule that suddenly matches far fewer
+# sites fails the run (exit 2); a clean-up that merges two sites into one does not
+FLOORS = {"C03.R1": 4, "C03.R2": 6, "C03.R3": 3, "C03.R4": 4, "C03.R5": 3, "C03.R6": 4}
